@@ -66,12 +66,12 @@ OwnKeepsValue == [][ \A s \in Slots : (st.slot[s].held /\ st'.slot[s].held /\ ~s
                        => st'.slot[s].val = st.slot[s].val ]_vars
 
 \* ------------------------------------------------------------------ emission of behaviours as scripts (spec -> code)
-\* one line per state at the depth bound or without successors of interest: the history with the expected final slot values
+\* one line per distinct state (VIEW: its first, i.e. shortest, history): the script and the expected final slot values
 Expect == [s \in Slots |-> IF st.slot[s].held THEN [held |-> 1, usable |-> IF st.slot[s].valid THEN 1 ELSE 0, own |-> IF st.slot[s].owner THEN 1 ELSE 0,
                                                      text |-> Recompose(st.slot[s].val), val |-> st.slot[s].val]
                            ELSE [held |-> 0]]
 EmitOn == "EMIT" \in DOMAIN IOEnv /\ IOEnv.EMIT # ""
-InvEmit == (EmitOn /\ Len(hist) = MaxDepth) => CSVWrite("%1$s", <<ToJson([script |-> hist, expect |-> [i \in 1..NSlots |-> Expect[i]]])>>, IOEnv.EMIT)
+InvEmit == (EmitOn /\ hist # <<>> /\ Last(hist).op \notin {"buf"}) => CSVWrite("%1$s", <<ToJson([script |-> hist, expect |-> [i \in 1..NSlots |-> Expect[i]]])>>, IOEnv.EMIT)
 
 View == st
 =============================================================================
